@@ -93,6 +93,14 @@ pub fn mocked_p2p() -> (VP2p, MockP2pHandle) {
     (VP2p(Arc::new(p2p)), handle)
 }
 
+/// Set the numbers the mocked `P2p` publishes: connected peers, and how many of them are trusted.
+pub fn set_peer_counts(handle: &MockP2pHandle, connected: u64, trusted: u64) {
+    handle.peer_tracker_tx.send_modify(|info| {
+        info.num_connected_peers = connected;
+        info.num_connected_trusted_peers = trusted;
+    });
+}
+
 /// A command the mocked `P2p` received.
 pub enum MockCmd {
     HeaderEx {
